@@ -9,6 +9,7 @@
 #include <unicode/ustream.h>
 
 #include <algorithm>
+#include <cstdio>
 #include <string>
 #include <iostream>
 
@@ -56,6 +57,11 @@ int main(int argc, char *argv[]) {
       std::swap(cur, tmp);
     }
     std::cout << *cur << '\n';
+  }
+  // std::cin is synchronized with stdio: a failing read(2) shows up in stdin's error flag, not as badbit.
+  if (std::cin.bad() || std::ferror(stdin)) {
+    std::cerr << "Error reading from stdin\n";
+    return 1;
   }
   std::cout.flush();
   if (!std::cout) {
